@@ -14,7 +14,7 @@ CQ_MOUNTS = [
 ]
 
 
-FETCH = r"CQueue::<.*>::fetch_next"
+FETCH = r"CQueue::<.*>::(fetch_next|next_time)"
 
 
 REALLOC = (r"realloc_words", None, 34)
@@ -68,7 +68,7 @@ PROPS["C01"] = dict(
     crate="des-cqueue",
     mounts=CQ_MOUNTS + [dict(file="des-cqueue/src/stable/mod.rs", decl="mod verif_c01", harness="c01.rs")],
     prepend=CQ_PREPEND,
-    functions=["des_cqueue::CQueue::{new,add,cancel,fetch_next,len,is_empty,time}",
+    functions=["des_cqueue::CQueue::{new,new_at,add,cancel,fetch_next,next_time,len,is_empty,time}",
                "des_cqueue::stable::linked_list::DualLinkedList::{new,add,cancel,front_time,pop_min,is_empty}",
                "EventNode::{new,empty,into_inner}", "LocalBox::{new_in,from_raw_in,drop}", "std VecDeque push_back/pop_front/remove/iter().position"],
     level_text="Bounded model checking of the real des-cqueue code: for every timestamp pattern (ties, bucket boundaries, whole-year multiples, times equal to the current time) and every script shape listed in the evidence, the SAT solver shows that fetch order is non-decreasing, every non-cancelled event is returned exactly once with its timestamp, cancelled pending events never return, len is exact and cancel of a fetched handle is a no-op. Bounds: <=3 live events, timestamps <=5 ns, (n,t) in {(1,1),(1,2),(2,1),(2,2),(3,1)}. This is the right level because the queue logic is pointer/index arithmetic whose rare inputs (tie with current time, year wrap) a solver enumerates symbolically; it is not a proof for unbounded histories.",
@@ -86,6 +86,10 @@ PROPS["C01"] = dict(
         H(M01, "c01_cancel1_n2t2", fetch=4, bounds="n=2,t=2ns; add(a),cancel,add(b),drain; times<=5 (bucket boundary a==t inside)"),
         H(M01, "c01_cancel1_n2t1", fetch=5, bounds="n=2,t=1ns; add(a),cancel,add(b),drain; times<=4"),
         H(M01, "c01_cancel1_n3t1", fetch=5, mem=14, bounds="n=3,t=1ns; add(a),cancel,add(b),drain; times<=4"),
+        H(M01, "c01_cancel_after_fetch_n2t2", fetch=5, mem=14, bounds="n=2,t=2ns; add,add,fetch,cancel(the pending one); times<=7 (clock unaligned inside a bucket, target up to 3 buckets ahead)"),
+        H(M01, "c01_cancel_after_fetch_n3t2", fetch=5, mem=14, tier="thorough", bounds="n=3,t=2ns; add,add,fetch,cancel(the pending one); times<=7"),
+        H(M01, "c01_peek_add_n2t1", fetch=6, mem=16, bounds="n=2,t=1ns; add,add,fetch,next_time,add(c>=current),drain; times<=4"),
+        H(M01, "c01_peek_add_n1t2", fetch=4, mem=16, tier="thorough", bounds="n=1,t=2ns; add,add,fetch,next_time,add,drain; times<=5"),
         H(M01, "c01_cancel2_n1t1", fetch=4, bounds="n=1,t=1ns; add,add,[fetch],cancel(sym),drain; times<=3"),
         H(M01, "c01_cancel2_n2t2", fetch=4, bounds="n=2,t=2ns; add,add,[fetch],cancel(sym),drain; times<=5", tier="thorough", mem=20),
         H(M01, "c01_cancel2_n2t1", fetch=5, bounds="n=2,t=1ns; add,add,[fetch],cancel(sym),drain; times<=4", tier="thorough", mem=20),
@@ -163,6 +167,7 @@ PROPS["C10"] = dict(
         H(MRT, "c10_cut1_n1t8", fetch=2, unwindset=[DISPATCH(3)], mem=12, bounds="n=1,t=8ns; three events a<=b<=c<=3 (ties allowed); dispatch_n_events(1) then dispatch_event calls"),
         H(MRT, "c10_cut2_n1t8", fetch=2, unwindset=[DISPATCH(4)], mem=12, tier="thorough", bounds="n=1,t=8ns; three events a<=b<=c<=3; dispatch_n_events(2) then dispatch_event calls"),
         H(MRT, "c10_paused_add_n1t8", fetch=2, unwindset=[DISPATCH(3)], mem=12, bounds="n=1,t=8ns; events a<=b<=3; dispatch_n_events(1); add_event(x in a..=4); one dispatch_event"),
+        H(MRT, "c10_paused_add_n2t1", fetch=6, unwindset=[DISPATCH(3)], mem=30, tier="experimental", bounds="n=2,t=1ns (several buckets/windows between the events); events a<=b<=3; dispatch_n_events(1); add_event(x in a..=4); one dispatch_event"),
         H(MRT, "c10_until1_n1t8", fetch=2, unwindset=[DISPATCH(3)], bounds="n=1,t=8ns; one event at a<=3; dispatch_n_events(0); dispatch_events_until(T'<=3)"),
         H(MRT, "c10_until_n1t8", fetch=2, unwindset=[DISPATCH(4)], mem=18, tier="thorough", bounds="n=1,t=8ns; two events times<=3; dispatch_events_until(T'<=3) then dispatch_all"),
         H(MRT, "c10_cut1_same_instant_n1t2", fetch=3, unwindset=[DISPATCH(3)], mem=16, tier="thorough", bounds="n=1,t=2ns; three events at one symbolic instant a<=3; dispatch_n_events(1)"),
@@ -221,6 +226,8 @@ PROPS["C16"] = dict(
         H(M16, "c16_message_length", bounds="u64,u8,(),Option<u32>,Result<u16,u64>,[u16;3],(u8,u32,u64), no body; symbolic values"),
         H(M16, "c16_message_length_collections", bounds="Vec<u32> len<=3, String len<=4, Box<u16>"),
         H(M16, "c16_message_cast", bounds="Message::{can_cast,try_content,try_cast,clone} with symbolic payload"),
+        H(M16, "c16_message_length_wrapped_deque", bounds="VecDeque<u32> with capacity 4, physically wrapped, 3-4 symbolic elements"),
+        H(M16, "c16_message_try_clone_keeps_body", bounds="Message::try_clone with a clonable / non-clonable body (symbolic), symbolic payload"),
     ],
 )
 
@@ -248,7 +255,7 @@ PROPS["C15"] = dict(
         H(M15, "c15_alloc2_align8", mem=12, bounds="REAL allocator, page 128; alloc(l0),alloc(l1); sizes 1..64 symbolic, align 8"),
         H(M15, "c15_alloc2_align1_16", mem=12, bounds="REAL allocator, page 128; alloc(size 1..64, align 1), alloc(size 1..64, align 16)"),
         H(M15, "c15_alloc_free_alloc_align8", mem=12, bounds="REAL allocator, page 128; alloc(l0),free,alloc(l1); sizes 1..64 symbolic, align 8"),
-        H(M15, "c15_alloc_reuse_keeps_live_block", mem=16, bounds="REAL allocator, page 128; alloc(24),alloc(l1),free(first),alloc(l2); sizes 1..64 symbolic, align 8"),
+        H(M15, "c15_alloc_reuse_keeps_live_block", mem=16, timeout=1500, bounds="REAL allocator, page 128; alloc(24,align 8),alloc(32,align 8),free(second),alloc(size 1..64 symbolic, align 16)"),
         H(M15, "c15_alloc_script3", bounds="REAL allocator, page 128; alloc,alloc,free(sym),alloc; sizes 1..64, align 1..16 symbolic", tier="thorough", timeout=5400, mem=24),
         H(M15, "c15_alloc_page_limits", bounds="REAL allocator, page 128; one request of size 1..200, align 8"),
         H(M15P, "c15_payload_pending_n1t2", fetch=3, bounds="n=1,t=2ns; two D payloads at symbolic times<=3; queue dropped with both pending"),
